@@ -1,11 +1,12 @@
 #!/bin/bash
 # usage: tools/try_seed.sh <seed-dir> <check-id> [more check ids...]
 # Confirms a seeded change (tests still pass, demo fails with it / passes without it) in a scratch copy,
-# then applies it to /repo, runs the given quick checks, and restores /repo.
+# then runs the given quick checks against the changed copy (equivalent to git -C /repo apply; ./check; git -C /repo checkout -- .
+# but leaves /repo untouched so that long background runs are not disturbed).
 set -u
 seed="$(cd "$1" && pwd)"; shift
 work=$(mktemp -d /tmp/seedtest-XXXXXX)
-trap 'git -C /repo checkout -- . ; rm -rf "$work"' EXIT
+trap 'rm -rf "$work"' EXIT
 git -C /repo diff --quiet || { echo "/repo has uncommitted changes"; exit 2; }
 git -C /repo apply --check "$seed/patch.diff" || { echo "PATCH DOES NOT APPLY"; exit 2; }
 cp -a /repo "$work/orig"
@@ -18,11 +19,10 @@ if [ -f "$seed/build_and_run.sh" ]; then
   ( cd "$work/d2" && cp "$seed"/demo.c* . 2>/dev/null; bash "$seed/build_and_run.sh" "$work/chg" > "$work/demo_chg.log" 2>&1 ); r2=$?
   echo "demo on original: rc=$r1 ($(tail -1 $work/demo_orig.log | cut -c1-80)); on changed: rc=$r2 ($(tail -1 $work/demo_chg.log | cut -c1-80))"
 fi
-git -C /repo apply "$seed/patch.diff"
+# the checks are pointed at the changed scratch copy (MASA_REPO), which is /repo's tree + the patch; /repo itself stays untouched
 for c in "$@"; do
-  out=$(cd /verif && ./check "$c" --tier quick 2>&1); rc=$?
+  out=$(cd /verif && MASA_REPO="$work/chg" ./check "$c" --tier quick 2>&1); rc=$?
   echo "check $c rc=$rc : $(echo "$out" | grep -c '^VIOLATION') violation line(s); $(echo "$out" | tail -1 | cut -c1-200)"
   echo "$out" | grep -A1 '^VIOLATION' | head -6 | cut -c1-300
   echo "$out" | grep '^INFRASTRUCTURE\|^UNDECIDED\|^INCONCLUSIVE' | head -4 | cut -c1-300
 done
-git -C /repo checkout -- .
